@@ -200,6 +200,16 @@ VARIANTS = [
     {"name": "R3 header peek expands everything and snips afterwards", "file": DES, "expect": "C03.R3",
      "old": "            header = data[PacketLayout.PHL_NAME:16 + (msg.offset * 2)]\n            reader = se.BufferReader(\"!\", self.zero_code_expand(header))\n",
      "new": "            expanded = self.zero_code_expand(data[PacketLayout.PHL_NAME:])\n            reader = se.BufferReader(\"!\", expanded[:4 + msg.offset])\n"},
+    {"name": "R1 cap from an optional argument tested by truthiness (None = no cap)", "expect": "C03.R1", "edits": [
+        {"file": DES, "old": "    def zero_code_expand(msg_buf: bytes):\n", "new": "    def zero_code_expand(msg_buf: bytes, cap=None):\n"},
+        {"file": DES, "old": "if len(decode_buf) > 0x3000:", "new": "if cap and len(decode_buf) > cap:"}]},
+    {"name": "P R1 zero-free buffers returned by a fast path", "file": DES, "expect": "silent",
+     "old": "        decode_buf = bytearray()\n        in_zero = False\n",
+     "new": "        if type(msg_buf) in (bytes, bytearray) and 0 not in msg_buf and len(msg_buf) <= 0x3000:\n"
+            "            return bytearray(msg_buf)\n        decode_buf = bytearray()\n        in_zero = False\n"},
+    {"name": "R1 fast path returns any buffer without a zero test or length limit", "file": DES, "expect": "C03.R1",
+     "old": "        decode_buf = bytearray()\n        in_zero = False\n",
+     "new": "        if 0 not in msg_buf:\n            return bytearray(msg_buf)\n        decode_buf = bytearray()\n        in_zero = False\n"},
     # ------------------------------------------------------------------ documented limits
     {"name": "X decoder run arithmetic off by one (value-level)", "file": DES, "expect": "miss",
      "old": "zero_count = c - 1", "new": "zero_count = c"},
